@@ -39,7 +39,7 @@ def signature(d, hist):
     what = d["kind"]
     if d["kind"] in ("state", "index_vs_scan"):
         qs = d.get("queries", [])
-        cls = sorted({"pk" if q.startswith("pk") or q == "range" else "unique" if q.startswith("ua") or q == "anull" else "scan" if q in ("scan", "b0", "b1") else q for q in qs})
+        cls = sorted({"pk" if q.startswith("pk") or q == "range" else "unique" if q.startswith("ua") or q in ("anull", "arange") else "scan" if q in ("scan", "b0", "b1", "brange") else q for q in qs})
         what += "[" + "+".join(cls) + "]"
     return "%s:after_%s:undoing_%s" % (what, "drophandle" if any(h["op"]["k"] == "drophandle" for h in hist) else "rollback" if any(h["op"]["k"] in ("rollback", "rollback_to") for h in hist) else op["k"], "+".join(undone(hist)) or "nothing")
 
